@@ -184,6 +184,26 @@ func (e *Enc) applyCall(v ssa.Value, c *ssa.CallCommon, args []TV, in ssa.Instru
 		o.Pos = e.w.fset.Position(in.Pos())
 		e.assert(imp(guard, t))
 	}
+	// object invariants of the callee's receiver type
+	if fn != nil && len(args) > 0 {
+		sameType := false
+		if e.fn != nil && e.fn.Signature.Recv() != nil && fn.Signature.Recv() != nil && types.Identical(e.fn.Signature.Recv().Type(), fn.Signature.Recv().Type()) {
+			sameType = true
+		}
+		if sameType && e.writesRecvFields() {
+			for _, iv := range e.typeInvsFor(fn) {
+				ienv := e.newEnv(iv.Pkg)
+				ienv.st, ienv.old = e.st, e.st
+				ienv.vars[iv.RecvName] = args[0]
+				t, err := e.evalBool(iv.Clause.E, ienv)
+				if err != nil {
+					continue
+				}
+				o := e.addObl("call-pre", fmt.Sprintf("call-pre:%s:inv.%s", site, iv.Clause.Label), iv.Clause.Label, guard, t)
+				o.Pos = e.w.fset.Position(in.Pos())
+			}
+		}
+	}
 	// recursion: decreases
 	if len(ctr.Decreases) > 0 && e.ctr != nil && len(e.ctr.Decreases) > 0 && e.sameRecursionGroup(key) {
 		e.decreasesObl(ctr, env, site, guard, in)
@@ -245,8 +265,15 @@ func (e *Enc) applyCall(v ssa.Value, c *ssa.CallCommon, args []TV, in ssa.Instru
 			}
 		}
 	}
-	for _, u := range ctr.Uses {
-		_ = u
+	if fn != nil && len(args) > 0 {
+		for _, iv := range e.typeInvsFor(fn) {
+			ienv := e.newEnv(iv.Pkg)
+			ienv.st, ienv.old = e.st, pre
+			ienv.vars[iv.RecvName] = args[0]
+			if t, err := e.evalBool(iv.Clause.E, ienv); err == nil {
+				e.assert(imp(guard, t))
+			}
+		}
 	}
 	for _, en := range ctr.Ensures {
 		t, err := e.evalBool(en.E, post)
@@ -382,7 +409,7 @@ func (e *Enc) modTargets(m Expr, env *Env) ([]modTarget, error) {
 			if !ok {
 				return nil, fmt.Errorf("elems: not a slice")
 			}
-			return []modTarget{{e.arrKey(e.sortOf(stt.Elem())), "(sbase " + a.S + ")"}}, nil
+			return []modTarget{{e.arrKeyT(stt.Elem()), "(sbase " + a.S + ")"}}, nil
 		case "fields":
 			a, err := e.evalExpr(x.Args[0], env)
 			if err != nil {
@@ -429,7 +456,11 @@ func (e *Enc) modTargets(m Expr, env *Env) ([]modTarget, error) {
 func (e *Enc) havocTarget(t modTarget) {
 	cs := e.compKeySort(t.key)
 	if t.idx == "" {
-		e.set(t.key, e.fresh("hv", cs))
+		c := e.fresh("hv", cs)
+		e.set(t.key, c)
+		if e.refComp[t.key] {
+			e.closure(t.key, c, e.get(e.st, e.allocKey()))
+		}
 		return
 	}
 	// element sort of (Array I V)
@@ -438,6 +469,9 @@ func (e *Enc) havocTarget(t modTarget) {
 	vs := splitArraySort(inner)
 	c := e.fresh("hv", vs)
 	e.set(t.key, store(e.get(e.st, t.key), t.idx, c))
+	if e.refComp[t.key] {
+		e.closureElem(t.key, c, e.get(e.st, e.allocKey()))
+	}
 }
 
 // splitArraySort takes "I V" (with possibly parenthesised sorts) and returns V.
@@ -534,7 +568,7 @@ func (e *Enc) frameCheckStore(p *Place, in ssa.Instruction) {
 	case pMem:
 		t = modTarget{e.memKey(e.sortOf(p.RootT)), p.Ref}
 	case pElem:
-		t = modTarget{e.arrKey(e.sortOf(p.RootT)), p.Ref}
+		t = modTarget{e.arrKeyT(p.RootT), p.Ref}
 	default:
 		return
 	}
@@ -622,6 +656,24 @@ type retSite struct {
 
 func (e *Enc) ret(x *ssa.Return) {
 	e.retGuards = append(e.retGuards, e.at[e.curBlock])
+	if e.pass != 1 && e.writesRecvFields() {
+		for _, iv := range e.typeInvsFor(e.fn) {
+			env := e.entryEnv()
+			env.st = e.st
+			env.old = e.entry
+			if len(e.fn.Params) > 0 {
+				env.vars[iv.RecvName] = e.vals[e.fn.Params[0]]
+			}
+			t, err := e.evalBool(iv.Clause.E, env)
+			if err != nil {
+				e.contractError("invariant:"+iv.Clause.Label, err)
+				continue
+			}
+			e.retCount["inv:"+iv.Clause.Label]++
+			o := e.addObl("post", fmt.Sprintf("post:inv.%s@ret%d", iv.Clause.Label, e.retCount["inv:"+iv.Clause.Label]), iv.Clause.Label, e.at[e.curBlock], t)
+			o.Pos = e.w.fset.Position(x.Pos())
+		}
+	}
 	if e.ctr == nil || e.pass == 1 {
 		return
 	}
@@ -674,6 +726,18 @@ func (e *Enc) finishPosts() {
 }
 
 func (e *Enc) assumeRequires() {
+	for _, iv := range e.typeInvsFor(e.fn) {
+		env := e.entryEnv()
+		if len(e.fn.Params) > 0 {
+			env.vars[iv.RecvName] = e.vals[e.fn.Params[0]]
+		}
+		t, err := e.evalBool(iv.Clause.E, env)
+		if err != nil {
+			e.contractError("invariant:"+iv.Clause.Label, err)
+			continue
+		}
+		e.assert(t)
+	}
 	if e.ctr == nil {
 		return
 	}
@@ -746,7 +810,7 @@ func (e *Enc) builtin(v ssa.Value, b *ssa.Builtin, c *ssa.CallCommon, in ssa.Ins
 	case "copy":
 		dst := arg(0)
 		if st, ok := c.Args[0].Type().Underlying().(*types.Slice); ok {
-			e.havocTarget(modTarget{e.arrKey(e.sortOf(st.Elem())), "(sbase " + dst.S + ")"})
+			e.havocTarget(modTarget{e.arrKeyT(st.Elem()), "(sbase " + dst.S + ")"})
 		}
 		if v != nil {
 			e.havocVal(v)
@@ -796,7 +860,7 @@ func (e *Enc) appendBuiltin(v ssa.Value, c *ssa.CallCommon, in ssa.Instruction) 
 		return
 	}
 	es := e.sortOf(st.Elem())
-	k := e.arrKey(es)
+	k := e.arrKeyT(st.Elem())
 	h := e.get(e.st, k)
 	oldA := sel(h, "(sbase "+s.S+")")
 	tA := sel(h, "(sbase "+t.S+")")
@@ -831,4 +895,61 @@ func (e *Enc) appendBuiltin(v ssa.Value, c *ssa.CallCommon, in ssa.Instruction) 
 	e.assert(fmt.Sprintf("(forall ((i Int)) (! (=> (and (<= 0 i) (< i (slen %s))) (= (select %s (+ (slen %s) i)) (select %s i))) :pattern ((select %s (+ (slen %s) i)))))", t.S, na, s.S, tA, na, s.S))
 	e.set(k, store(e.get(e.st, k), r, na))
 	e.setVal(v, fmt.Sprintf("(mkslice %s (+ (slen %s) (slen %s)))", r, s.S, t.S))
+}
+
+// typeInvsFor returns the object invariants that apply to methods with the given receiver.
+func (e *Enc) typeInvsFor(fn *ssa.Function) []*TypeInv {
+	if fn == nil || fn.Signature.Recv() == nil || fn.Pkg == nil {
+		return nil
+	}
+	rt := fn.Signature.Recv().Type()
+	name := ""
+	if p, ok := rt.(*types.Pointer); ok {
+		if n, ok := p.Elem().(*types.Named); ok {
+			name = "*" + n.Obj().Name()
+		}
+	} else if n, ok := rt.(*types.Named); ok {
+		name = n.Obj().Name()
+	}
+	var out []*TypeInv
+	for _, iv := range e.w.cs.Invs {
+		if iv.Pkg == fn.Pkg.Pkg.Path() && iv.Type == name {
+			out = append(out, iv)
+		}
+	}
+	return out
+}
+
+// writesRecvFields: does this method store into fields (or slice elements reached through fields) of its receiver's struct type?
+// Object invariants are proved at the exits of exactly these methods and assumed everywhere else (encapsulation is checked by
+// encapsulationObligations).
+func (e *Enc) writesRecvFields() bool {
+	if e.fn == nil || e.fn.Signature.Recv() == nil {
+		return false
+	}
+	return storesToStruct(e.fn, deref(e.fn.Signature.Recv().Type()))
+}
+
+func storesToStruct(fn *ssa.Function, st types.Type) bool {
+	isField := func(v ssa.Value) bool {
+		fa, ok := v.(*ssa.FieldAddr)
+		return ok && types.Identical(deref(fa.X.Type()), st)
+	}
+	for _, b := range fn.Blocks {
+		for _, in := range b.Instrs {
+			s, ok := in.(*ssa.Store)
+			if !ok {
+				continue
+			}
+			if isField(s.Addr) {
+				return true
+			}
+			if ia, ok := s.Addr.(*ssa.IndexAddr); ok {
+				if ld, ok := ia.X.(*ssa.UnOp); ok && isField(ld.X) {
+					return true
+				}
+			}
+		}
+	}
+	return false
 }
